@@ -21,12 +21,27 @@ func commonGenOpts() rt.GenOpts {
 	return rt.GenOpts{Router: "common", MaxSvcs: 4, MaxRoutes: 6, MaxRootLen: 2, MaxPathLen: 3, VarRoots: false, Conds: false, Media: true, Styles: true, PlainOnly: true, NoWild: true, NoRegex: true, Nested: true}
 }
 
+// setNoOptions is setOf without OPTIONS (outside the compared universe, DESIGN C17).
+func setNoOptions(xs []string) string {
+	var out []string
+	for _, xx := range xs {
+		for _, x := range strings.Split(xx, ",") {
+			if strings.TrimSpace(x) != "OPTIONS" {
+				out = append(out, x)
+			}
+		}
+	}
+	return setOf(out)
+}
+
 func setOf(xs []string) string {
 	m := map[string]bool{}
-	for _, x := range xs {
-		x = strings.TrimSpace(x)
-		if x != "" {
-			m[x] = true
+	for _, xx := range xs {
+		for _, x := range strings.Split(xx, ",") {
+			x = strings.TrimSpace(x)
+			if x != "" {
+				m[x] = true
+			}
 		}
 	}
 	out := make([]string, 0, len(m))
@@ -66,7 +81,7 @@ func urlsFor(r *core.Rand, t *rt.Table, n int) []string {
 func c17(ctx *core.Ctx) {
 	quietLogs()
 	ctx.Rule("tables on the fragment both matching engines support (nested literal roots, literal and {v} segments, Consumes/Produces, no conditions), both routers. For each URL u: S(u) = methods in {GET,POST,PUT,DELETE,PATCH,HEAD} whose probe on a filter-less twin is not 404/405. Oracle: every 405's Allow set == S(u) (also for OPTIONS and an unknown method); with OPTIONSFilter installed OPTIONS u gives Allow == Access-Control-Allow-Methods == S(u), runs no route function, and every other probe equals the twin's answer. Non-trivial = a URL with non-empty S(u); distinct by (router, |S(u)|, number of matching roots, trailing slash).")
-	ctx.Assume("OPTIONS itself is outside the compared universe: the filter answers it by construction")
+	ctx.Assume("OPTIONS itself is outside the compared universe (removed from both sides): the filter answers it by construction", "every 3rd table has explicit OPTIONS routes; every 3rd table has routes added/removed on registered WebServices between three probe passes")
 	tables := ctx.N(2500, 30000)
 	perTable := ctx.N(25, 50)
 	if !ctx.Quick() {
@@ -81,11 +96,75 @@ func c17(ctx *core.Ctx) {
 		r := ctx.Rand(ti, "table")
 		t := rt.GenTable(r, commonGenOpts())
 		ctx.Case(ti, "router="+router+" table="+core.JSON(t))
-		twin := rt.Build(t, rt.DefaultBuild(router))
-		filtered := rt.Build(t, rt.DefaultBuild(router))
-		filtered.Filter(filtered.OPTIONSFilter)
+		// every 3rd table: explicit OPTIONS routes; every 3rd: routes change between two probe passes
+		if ti%3 == 1 {
+			for i := range t.Svcs {
+				for j := range t.Svcs[i].Routes {
+					if r.Chance(1, 4) {
+						t.Svcs[i].Routes[j].Method = "OPTIONS"
+					}
+				}
+			}
+		}
+		dynamic := ti%3 == 2
+		bo := rt.DefaultBuild(router)
+		bo.Dynamic = dynamic
+		var twinWS, filtWS []*restful.WebService
+		build := func(withFilter bool) (*restful.Container, []*restful.WebService) {
+			c := restful.NewContainer()
+			if router == "jsr311" {
+				c.Router(restful.RouterJSR311{})
+			}
+			if withFilter {
+				c.Filter(c.OPTIONSFilter)
+			}
+			var wss []*restful.WebService
+			for i := range t.Svcs {
+				ws := rt.NewService(&t.Svcs[i], nil, bo, i)
+				wss = append(wss, ws)
+				c.Add(ws)
+			}
+			return c, wss
+		}
+		twin, twinWS := build(false)
+		filtered, filtWS := build(true)
 		rr := ctx.Rand(ti, "req")
-		for _, u := range urlsFor(rr, t, perTable) {
+		urls := urlsFor(rr, t, perTable)
+		passes := 1
+		if dynamic {
+			passes = 3
+		}
+		for pass := 0; pass < passes; pass++ {
+			if pass > 0 {
+				// change the routes of a registered WebService on both containers, then probe the same URLs again
+				si := rr.Intn(len(t.Svcs))
+				svc := &t.Svcs[si]
+				if pass == 1 || len(svc.Routes) < 2 {
+					src := svc.Routes[rr.Intn(len(svc.Routes))]
+					nr := src
+					nr.ID = 5000 + pass
+					nr.Method = rr.Pick(universe)
+					svc.Routes = append(svc.Routes, nr)
+					rt.AddRoute(twinWS[si], &svc.Routes[len(svc.Routes)-1], bo)
+					rt.AddRoute(filtWS[si], &svc.Routes[len(svc.Routes)-1], bo)
+					ctx.Count("routes_added_between_passes", 1)
+				} else {
+					k := rr.Intn(len(svc.Routes))
+					victim := svc.Routes[k]
+					full := strings.TrimRight(svc.Root.String(), "/") + "/" + strings.TrimLeft(victim.Render(), "/")
+					twinWS[si].RemoveRoute(full, victim.Method)
+					filtWS[si].RemoveRoute(full, victim.Method)
+					ctx.Count("routes_removed_between_passes", 1)
+				}
+			}
+			c17Probe(ctx, ti, t, router, twin, filtered, urls, universe, rr, pass)
+		}
+	}
+}
+
+func c17Probe(ctx *core.Ctx, ti int, t *rt.Table, router string, twin, filtered *restful.Container, urls []string, universe []string, rr *core.Rand, pass int) {
+	{
+		for _, u := range urls {
 			tokens, _ := rt.Tokens(u)
 			var s []string
 			type probe struct {
@@ -129,13 +208,13 @@ func c17(ctx *core.Ctx) {
 				}
 			}
 			if len(s) > 0 {
-				ctx.Sig(fmt.Sprintf("%s|S=%d|roots=%d|slash=%v", router, len(s), nroots, strings.HasSuffix(u, "/") && u != "/"))
+				ctx.Sig(fmt.Sprintf("%s|S=%d|roots=%d|slash=%v|pass=%d", router, len(s), nroots, strings.HasSuffix(u, "/") && u != "/", pass))
 				ctx.Count("urls_with_routable_methods", 1)
 			}
 			for _, p := range probes {
 				if p.out.Status == 405 {
 					ctx.Count("allow_405_checked", 1)
-					got := setOf(p.out.Allow)
+					got := setNoOptions(p.out.Allow)
 					if got != want {
 						ctx.Violation(ti, "c17:405-allow:"+router, fmt.Sprintf("%s %q: 405 Allow={%s} but the routable methods are {%s}", p.m, u, got, want),
 							caseDoc{Router: router, Entry: rt.Dispatch, Table: t, Req: rt.Req{Method: p.m, Path: u}, Obs: p.out, Want: want})
@@ -152,8 +231,8 @@ func c17(ctx *core.Ctx) {
 				ctx.Violation(ti, "c17:options-invokes:"+router, fmt.Sprintf("OPTIONS %q ran a route function although OPTIONSFilter is installed", u), doc)
 			}
 			h := oo.Rec.Hdr()
-			allow := setOf(strings.Split(strings.Join(h["Allow"], ","), ","))
-			acam := setOf(strings.Split(strings.Join(h["Access-Control-Allow-Methods"], ","), ","))
+			allow := setNoOptions(h["Allow"])
+			acam := setNoOptions(h["Access-Control-Allow-Methods"])
 			if allow != want || acam != want {
 				ctx.Violation(ti, "c17:options-allow:"+router, fmt.Sprintf("OPTIONS %q: Allow={%s} Access-Control-Allow-Methods={%s}, routable methods are {%s}", u, allow, acam, want), doc)
 			}
@@ -185,16 +264,27 @@ func c18(ctx *core.Ctx) {
 		t := rt.GenTable(r, o)
 		ctx.Case(ti, "table="+core.JSON(t))
 		var cs [2]*restful.Container
-		cs[0] = rt.Build(t, rt.DefaultBuild("curly"))
-		cs[1] = rt.Build(t, rt.DefaultBuild("jsr311"))
+		ba, bb := rt.DefaultBuild("curly"), rt.DefaultBuild("jsr311")
+		if ti%4 == 2 {
+			// "switching a container's router is unobservable": both twins were configured with the other router first
+			ba.Switched, bb.Switched = true, true
+		}
+		cs[0] = rt.Build(t, ba)
+		cs[1] = rt.Build(t, bb)
 		rr := ctx.Rand(ti, "req")
+		var reqs []rt.Req
+		var seqA, seqB []string
 		for qi := 0; qi < perTable; qi++ {
 			req := rt.GenReq(rr, t, "common")
 			if _, clean := rt.Tokens(req.Path); !clean {
 				continue
 			}
+			reqs = append(reqs, req)
+			seqA = append(seqA, "")
+			seqB = append(seqB, "")
 			a := rt.Run(cs[0], rt.Dispatch, &req)
 			b := rt.Run(cs[1], rt.Dispatch, &req)
+			seqA[len(seqA)-1], seqB[len(seqB)-1] = a.Sig(), b.Sig()
 			ctx.Eval(2)
 			shape := req.Class
 			if rid := a.RID(); rid >= 0 {
@@ -223,6 +313,25 @@ func c18(ctx *core.Ctx) {
 			}
 			if ctx.WantSample() && a.RID() >= 0 {
 				ctx.Sample(map[string]interface{}{"request": req, "curly": a.Sig(), "jsr311": b.Sig()})
+			}
+		}
+		if ti%4 == 0 && len(reqs) > 0 {
+			// agreement must also hold while the twins serve 8 goroutines each
+			sa, sb := make([]string, len(reqs)), make([]string, len(reqs))
+			concurrentBatch(cs[0], rt.Dispatch, reqs, 8, func(i int, out *rt.Outcome) { sa[i] = out.Sig() })
+			concurrentBatch(cs[1], rt.Dispatch, reqs, 8, func(i int, out *rt.Outcome) { sb[i] = out.Sig() })
+			ctx.Eval(2 * len(reqs))
+			ctx.Count("concurrent_pairs", len(reqs))
+			for i := range reqs {
+				// each twin must answer as it did sequentially, hence the twins still agree
+				if sa[i] != seqA[i] {
+					ctx.Violation(ti, "c18:concurrent:curly", fmt.Sprintf("%s %q under concurrency: CurlyRouter -> %s (sequentially %s, RouterJSR311 %s)", reqs[i].Method, reqs[i].Path, sa[i], seqA[i], sb[i]),
+						caseDoc{Router: "curly", Entry: rt.Dispatch + "-concurrent", Table: t, Req: reqs[i], Want: seqA[i], Note: sa[i]})
+				}
+				if sb[i] != seqB[i] {
+					ctx.Violation(ti, "c18:concurrent:jsr311", fmt.Sprintf("%s %q under concurrency: RouterJSR311 -> %s (sequentially %s, CurlyRouter %s)", reqs[i].Method, reqs[i].Path, sb[i], seqB[i], sa[i]),
+						caseDoc{Router: "jsr311", Entry: rt.Dispatch + "-concurrent", Table: t, Req: reqs[i], Want: seqB[i], Note: sb[i]})
+				}
 			}
 		}
 	}
